@@ -87,6 +87,8 @@ type Exec struct {
 	globals     map[*ssa.Global]*Loc
 	initDone    map[*ssa.Package]bool
 	funcs       map[*ssa.Function]bool
+	repoFn      map[*ssa.Function]bool
+	fieldUses   map[*ssa.FieldAddr]*fieldUse
 	steps       int
 	depth       int
 	nowCount    int
@@ -705,6 +707,7 @@ func (e *Exec) exec(fr *Frame, ins ssa.Instruction) {
 		p := e.get(fr, x.X).(PtrVal)
 		l := e.derefLoc(p)
 		fr.env[x] = PtrVal{loc: l.sub[x.Field]}
+		e.noteFieldUse(fr, x, l.sub[x.Field])
 	case *ssa.Go:
 		e.doGo(fr, x)
 	case *ssa.Index:
